@@ -7,8 +7,8 @@
  "replace_calls": {"nextchar": "nextchar_abs", "ghost_ungetc": "ungetc_abs", "stringlit": "stub_stringlit",
                    "charconst": "stub_charconst", "ident": "stub_ident", "number": "stub_number"},
  "kind": "bounded",
- "bound": "files of at most 8 logical characters (all byte values), each preceded by 0 or 1 backslash-newline pair: any mix of blanks, // and block comments in front of the token; scankind's skip loop unwound 10 times, comment()'s loops 10 times",
- "unwindset": ["scankind.0:10", "comment.0:10", "comment.1:10"],
+ "bound": "files of at most 8 logical characters (all byte values), each preceded by 0 or 1 backslash-newline pair: at most 3 separators (blank, // comment, block comment, in any order) in front of the token; scankind's skip loop unwound 4 times, comment()'s loops 10 times",
+ "unwindset": ["scankind.0:4", "comment.0:10", "comment.1:10"],
  "cflags": ["-DG_IN_MAX=40", "-DVERIF_OWN_XMALLOC"],
  "stubs": ["base.c", "ghost_stdio.c"],
  "cbmc_flags": ["--drop-unused-functions"],
@@ -48,6 +48,8 @@ harness(void)
 	loc_tables();
 	s = gs_scanner_at0(in_saw, true, false, g_pl0 + (g_L[0] == '\n'), g_L[0] == '\n' ? 0 : g_pc0);
 	g_saw0 = s->sawspace; g_file0 = s->loc.file;
+	g_T = loc_T();
+	__CPROVER_assume(g_T < 0 || lex_skip_step(g_L, g_T) == g_T);
 	g_no_error = T >= 0;
 	HCALLR(int, PRE_LOC, POST_LOC, scankind(s, loc));
 }
